@@ -1,5 +1,6 @@
 import SpecKitV.Lemmas.Chunking
 import SpecKitV.Props.NoiseGen
+import SpecKitV.Props.NoiseGensGen
 
 #print axioms Model.sectionRun_append
 #print axioms Model.sectionRun_length
@@ -15,3 +16,25 @@ import SpecKitV.Props.NoiseGen
 #print axioms gen_section_loop
 #print axioms gen_cascade_eq_model
 #print axioms gen_cascade_chunking
+#print axioms gen_white_init_eq_model
+#print axioms gen_white_get_series_eq_model
+#print axioms gen_white_chunking
+#print axioms gen_buffer_size_pos
+#print axioms gen_white_get_sample_eq_model
+#print axioms gen_white_sample_runs
+#print axioms gen_red_get_series_eq_model
+#print axioms gen_red_chunking
+#print axioms gen_red_get_sample_eq_model
+#print axioms gen_red_settle_eq_model
+#print axioms gen_red_init_eq_model
+#print axioms gen_red_requests_eq_model
+#print axioms gen_red_stream_chunking
+#print axioms gen_alpha_get_series_eq_model
+#print axioms gen_alpha_chunking
+#print axioms gen_alpha_get_sample_eq_model
+#print axioms gen_alpha_settle_eq_model
+#print axioms gen_alpha_obj_init_eq_model
+#print axioms gen_alpha_requests_eq_model
+#print axioms gen_pink_init_eq
+#print axioms gen_alpha_stream_chunking
+#print axioms gen_same_seed_same_stream
